@@ -174,13 +174,12 @@ def families(ctx: Ctx):
     rng = ctx.rng
     two = list(cm.exhaustive_models(2, ['a', 'b'], depth=2))
     two_any = [m for m in cm.exhaustive_models(2, ['a'], depth=2, with_any=True) if any(l[0] == 'a' for l in cm.leaves(m))]
-    three = list(cm.exhaustive_models(3, ['a', 'b'], occs=[(1, 1), (0, 1), (0, None), (2, 2), (1, 2)], depth=2))
-    three = [m for m in three if len(cm.leaves(m)) == 3]
-    n3 = ctx.pick(300, 6000)
+    n3 = ctx.pick(400, 8000)
     for v11 in (False, True):
         yield 'exh2', v11, (rng.sample(two, 700) if ctx.quick() else two), 5
         yield 'exh2-any', v11, rng.sample(two_any, min(len(two_any), ctx.pick(150, 2000))), 4
-        yield 'exh3-sample', v11, rng.sample(three, min(len(three), n3)), 5
+        three = [cm.random_small(rng, 3, ['a', 'b'], occs=[(1, 1), (0, 1), (0, None), (2, 2), (1, 2)]) for _ in range(n3)]
+        yield 'exh3-sample', v11, three, 5
         rnd = [cm.random_model(rng, ['a', 'b', 'c', 'h'], v11=v11) for _ in range(ctx.pick(300, 4000))]
         yield 'random', v11, rnd, ctx.pick(5, 6)
         refs = [cm.with_refs(rng, cm.random_model(rng, ['a', 'b', 'c'], v11=v11, allow_all=False)) for _ in range(ctx.pick(120, 2000))]
